@@ -40,6 +40,8 @@ def make_exc(name, tag="planned", side="a"):
         # the protocol's own exception raised by a USER CALLABLE: StopAsyncIteration for the library,
         # StopIteration for the synchronous reference
         return (StopAsyncIteration if side == "a" else StopIteration)(tag)
+    if name == "StopIteration":
+        return StopIteration(tag)  # literally this type on either side (C03 compares the library with itself)
     exc = EXC_TYPES[name](tag)
     return exc
 
